@@ -511,10 +511,17 @@ def single_def(body, local):
 def resolve_place(body, op, depth=0):
     """follow single-def use/ref/cast/transparent-call chains back to the originating place operand.
     returns (local, normproj) of the root place."""
+    ch = resolve_chain(body, op, depth)
+    return ch[-1] if ch else None
+
+
+def resolve_chain(body, op, depth=0):
+    """like resolve_place but returns every (local, normproj) met on the way (first = the operand itself)"""
     p = op_place(op)
     if p is None:
         return None
     l, pr = p["l"], norm_proj(p["proj"])
+    chain = [(l, pr)]
     while depth < 30:
         depth += 1
         df = single_def(body, l)
@@ -526,6 +533,7 @@ def resolve_place(body, op, depth=0):
             if q is None:
                 break
             l, pr = q["l"], norm_proj(q["proj"]) + pr
+            chain.append((l, pr))
             continue
         if df["kind"] == "call" and is_transparent(df["term"]) and df["term"]["args"]:
             q = op_place(df["term"]["args"][0])
@@ -535,9 +543,10 @@ def resolve_place(body, op, depth=0):
             if len(r) >= 2 and r[0][0] == "dc" and r[1][0] == "f" and r[1][1] == 0:
                 r = r[2:]
             l, pr = q["l"], norm_proj(q["proj"]) + tuple(r)
+            chain.append((l, pr))
             continue
         break
-    return l, pr
+    return chain
 
 
 # ------------------------------------------------------------------------------------------------
